@@ -186,6 +186,11 @@ void progress_kick();
 // reports; if it returns true the kernel treats the situation as handled
 // (the hook made some thread runnable), else default.
 void set_deadlock_hook(std::function<bool(const std::string& graph)> hook);
+// called (from whichever thread runs the scheduler) each time nothing is
+// runnable and the clock is about to jump to the next deadline: every thread
+// is blocked or asleep.  The hook may read model state and raise a violation;
+// it must not call simulated primitives.
+void set_idle_hook(std::function<void()> hook);
 void set_deadlock_oracle(const char* oracle_id);
 // how budget/deadlock failures are reported (plan.cpp installs the oracle gate)
 void set_fail_handler(void (*h)(const char*, const std::string&));
